@@ -1,10 +1,17 @@
 import Sigc.Lemmas.EmitStepD
 /-!
 # Emit work package — `collect` (destruction of objects owned by functors) preserves `Inv` and is a
-`Frame` step: it is built from `invalidateTrackable` and `disconnectCell`.
+`Frame` step: it is built from `invalidateTrackable`, `disconnectCell` and `dropHandle`.
 -/
 namespace Sigc.Emit
 open Sigc.Model
+
+/-- a functor-owned signal object dies (its entry, and possibly others, removed from `ownedG`) -/
+theorem good_dropOwned {s : St} (h : Inv s) (O' : List (Nat × Nat)) (hsub : ∀ p ∈ O', p ∈ s.ownedG)
+    {k g : Nat} (hmem : (k, g) ∈ s.ownedG) : Good0 s (dropHandle { s with ownedG := O' } g) := by
+  have h0 : Inv { s with ownedG := O' } := h.congrSub rfl rfl rfl rfl (Nat.le_refl _) hsub
+  have g0 : Good0 s { s with ownedG := O' } := ⟨h0, Frame.of_eq (Nat.le_refl _) rfl rfl⟩
+  exact g0.trans (good_dropHandle h0 g (fun hd hg he => h.own (k, g) hmem hd hg he))
 
 theorem good_collectStep {s s' : St} (h : Inv s) (hc : collectStep s = some s') : Good0 s s' := by
   unfold collectStep at hc
@@ -14,7 +21,12 @@ theorem good_collectStep {s s' : St} (h : Inv s) (hc : collectStep s = some s') 
   · split at hc
     · simp at hc; subst hc
       apply good_optDisconnect' h <;> first | rfl | simp
-    · contradiction
+    · split at hc
+      · rename_i k g hf
+        simp at hc; subst hc
+        have hmem : (k, g) ∈ s.ownedG := List.mem_of_find?_eq_some hf
+        exact good_dropOwned h _ (fun p hp => (List.mem_filter.mp hp).1) hmem
+      · contradiction
 
 theorem good_collectN (n : Nat) {s : St} (h : Inv s) : Good0 s (collectN n s) := by
   induction n generalizing s with
